@@ -101,56 +101,99 @@ theorem objBytes_length (n : Nat) (cs : List Child) :
   simp [objBytes, le_length, encEntries_length, entriesOf_length]; omega
 
 /-- ParseJSONB's body, abstractly, for a header word with the object flag -/
-theorem parseContainer_object_abs (rec : Bytes → M JV) (data : Bytes) (H n : Nat) (es : List Nat)
+theorem parseContainer_object_abs (rec : Bytes → M JV) (data : Bytes) (H n : Nat) (es ends : List Nat)
     (kvs : List (Bytes × JV))
     (hl : 4 + n * 2 * 4 ≤ data.length) (hu : uN 4 data 0 = .ok H) (a2 : H &&& 0x0FFFFFFF = n)
-    (a3 : (H &&& 0x20000000 != 0) = true) (h0 : 0 < n) (h1 : n ≤ 10000)
-    (hre : readEntries data (n * 2) 0 = .ok es) (hm : monotoneFrom 0 es = true)
-    (hloop : parseObjectLoop rec data es (4 + n * 2 * 4) n n 0 = .ok kvs) :
+    (a3 : (H &&& 0x20000000 != 0) = true) (h0 : 0 < n)
+    (hre : readEntries (n * 2) (data.drop 4) = .ok es) (hm : endsFrom 0 es = some ends)
+    (hloop : parseObject rec data data.length es ends (4 + n * 2 * 4) n = .ok kvs) :
     parseContainer rec data = .ok (.obj (buildMap kvs)) := by
   unfold parseContainer
   have hl' : ¬ data.length < 4 := by omega
   simp only [hl', if_false, hu, ok_bind, a2, a3, pure_eq_ok]
-  have c1 : ((!true && !(H &&& 0x40000000 != 0)) || decide (n > 10000)) = false := by simp; omega
+  have c1 : (!true && !(H &&& 0x40000000 != 0)) = false := rfl
   have c2 : (n == 0) = false := by simp; omega
   simp only [c1, c2, Bool.false_eq_true, if_false, if_true]
-  rw [if_neg (by omega), hre]
-  simp only [ok_bind, hm, Bool.not_true, Bool.false_eq_true, if_false, hloop]
+  rw [if_neg (by omega), sliceFrom_ok data 4 (by omega)]
+  simp only [ok_bind, hre, hm, hloop]
 
-/-- the object loop, given the key and the decoded value of every pair -/
-theorem parseObjectLoop_results (rec : Bytes → M JV) (data : Bytes) (es : List Nat) (dataStart count : Nat)
-    (rs : List (Bytes × JV)) (hN : es.length = count * 2) (hr : rs.length = count)
-    (hkey : ∀ k, k < count → 0 ≤ (entryOffLenPure es k 0).2 ∧
-      dataStart + (entryOffLenPure es k 0).1 + (entryOffLenPure es k 0).2.toNat ≤ data.length ∧
-      (data.take (dataStart + (entryOffLenPure es k 0).1 + (entryOffLenPure es k 0).2.toNat)).drop
-        (dataStart + (entryOffLenPure es k 0).1) = (rs.getD k default).1)
-    (hval : ∀ k, k < count →
-      decodeJEntry rec data (dataStart + (entryOffLenPure es (count + k) 0).1) (entryOffLenPure es (count + k) 0).2
-        (es.getD (count + k) 0) = .ok (rs.getD k default).2)
-    (n i : Nat) (h : i + n = count) :
-    parseObjectLoop rec data es dataStart count n i = .ok (rs.drop i) := by
-  induction n generalizing i with
-  | zero =>
-    have : i = rs.length := by omega
-    subst this; simp [parseObjectLoop]
-  | succ n ih =>
-    unfold parseObjectLoop
-    rw [entryOffLen_ok es i 0 (by omega)]
-    simp only [ok_bind]
-    obtain ⟨k1, k2, k3⟩ := hkey i (by omega)
-    rw [if_pos ⟨k1, k2⟩, slice_ok _ _ _ k2 (by omega)]
-    simp only [ok_bind]
-    rw [entryOffLen_ok es (count + i) 0 (by omega)]
-    simp only [ok_bind]
-    rw [getEntry_getD es (count + i) (by omega)]
-    simp only [ok_bind]
-    rw [hval i (by omega)]
-    simp only [ok_bind]
-    rw [ih (i + 1) (by omega)]
-    simp only [ok_bind, pure_eq_ok]
-    have hi : i < rs.length := by omega
-    rw [k3, List.drop_eq_getElem_cons hi]
-    simp only [List.getD, List.getElem?_eq_getElem hi, Option.getD_some]
+/-- parseJSONBObject's loop over the end offsets of the key children `K` (followed by anything) and the
+entries and end offsets of the value children `V`, given the key and the decoded value of every pair -/
+theorem parseObjectLoop_children (rec : Bytes → M JV) (data : Bytes) (dataStart : Nat) (K V : List Child)
+    (hKV : K.length = V.length) (kTot vIdx vTot : Nat) (tail : List Nat)
+    (rs : List (Bytes × JV)) (hr : rs.length = K.length)
+    (hkey : ∀ k, k < K.length →
+      objKey data dataStart (kTot + pre (lensOf K) k) ((lensOf K).getD k 0 : Int) = .ok (rs.getD k default).1)
+    (hval : ∀ k, k < V.length →
+      decodeJEntry rec data (dataStart + (vTot + pre (lensOf V) k)) ((lensOf V).getD k 0 : Int)
+        ((entriesOf vIdx vTot V).getD k 0) = .ok (rs.getD k default).2) :
+    parseObjectLoop rec data data.length dataStart K.length kTot vTot (endsOf kTot K ++ tail) (entriesOf vIdx vTot V)
+      (endsOf vTot V) = .ok rs := by
+  induction K generalizing V kTot vIdx vTot rs with
+  | nil =>
+    have : rs = [] := List.eq_nil_of_length_eq_zero (by simpa using hr)
+    subst this; exact parseObjectLoop_zero ..
+  | cons c rest ih =>
+    match V, hKV, rs, hr with
+    | d :: V', hKV, r :: rs', hr =>
+      have k0 := hkey 0 (by simp)
+      have v0 := hval 0 (by simp)
+      simp only [lensOf, List.map_cons, List.getD_cons_zero, entriesOf, pre, List.take_zero, List.sum_nil,
+        Nat.add_zero] at k0 v0
+      simp only [List.length_cons, entriesOf, endsOf, List.cons_append]
+      rw [parseObjectLoop_cons]
+      rw [show ((kTot + c.2.length : Nat) : Int) - (kTot : Int) = (c.2.length : Int) by omega, k0]
+      simp only [ok_bind]
+      rw [show ((vTot + d.2.length : Nat) : Int) - (vTot : Int) = (d.2.length : Int) by omega, v0]
+      simp only [ok_bind]
+      rw [ih V' (by simpa using hKV) (kTot + c.2.length) (vIdx + 1) (vTot + d.2.length) rs' (by simpa using hr)
+        (fun k hk' => by
+          have := hkey (k + 1) (by simpa using hk')
+          simp only [lensOf, List.map_cons, List.getD_cons_succ] at this
+          rw [pre_cons_succ] at this
+          simp only [lensOf]
+          rw [show kTot + c.2.length + pre (List.map (fun x => x.2.length) rest) k =
+            kTot + (c.2.length + pre (List.map (fun x => x.2.length) rest) k) by omega]
+          exact this)
+        (fun k hk' => by
+          have := hval (k + 1) (by simpa using hk')
+          simp only [lensOf, List.map_cons, List.getD_cons_succ, entriesOf] at this
+          rw [pre_cons_succ] at this
+          simp only [lensOf]
+          rw [show vTot + d.2.length + pre (List.map (fun x => x.2.length) V') k =
+            vTot + (d.2.length + pre (List.map (fun x => x.2.length) V') k) by omega]
+          exact this)]
+      rfl
+
+/-- parseJSONBObject on the combined entry array of keys `K` and values `V` -/
+theorem parseObject_children (rec : Bytes → M JV) (data : Bytes) (dataStart : Nat) (K V : List Child)
+    (hKV : K.length = V.length) (h0 : 0 < K.length)
+    (rs : List (Bytes × JV)) (hr : rs.length = K.length)
+    (hkey : ∀ k, k < K.length →
+      objKey data dataStart (pre (lensOf K) k) ((lensOf K).getD k 0 : Int) = .ok (rs.getD k default).1)
+    (hval : ∀ k, k < V.length →
+      decodeJEntry rec data (dataStart + ((bodyOf K).length + pre (lensOf V) k)) ((lensOf V).getD k 0 : Int)
+        ((entriesOf K.length (bodyOf K).length V).getD k 0) = .ok (rs.getD k default).2) :
+    parseObject rec data data.length (entriesOf 0 0 (K ++ V)) (endsOf 0 (K ++ V)) dataStart K.length = .ok rs := by
+  unfold parseObject
+  have hel : (entriesOf 0 0 K).length = K.length := entriesOf_length 0 0 K
+  have hnl : (endsOf 0 K).length = K.length := endsOf_length 0 K
+  rw [entriesOf_append, endsOf_append]
+  simp only [Nat.zero_add]
+  rw [dropM_ok _ _ (by simp [hel]), dropM_ok _ _ (by simp [hnl])]
+  simp only [ok_bind]
+  rw [List.drop_left' hel, List.drop_left' hnl]
+  rw [getEntry_getD _ _ (by simp [hnl]; omega)]
+  simp only [ok_bind]
+  have hlast : (endsOf 0 K ++ endsOf (bodyOf K).length V).getD (K.length - 1) 0 = (bodyOf K).length := by
+    have := getD_endsOf_last 0 K h0
+    simp only [Nat.zero_add] at this
+    rw [← this]
+    simp only [List.getD]
+    rw [List.getElem?_append_left (by rw [hnl]; omega)]
+  rw [hlast]
+  exact parseObjectLoop_children rec data dataStart K V hKV 0 K.length (bodyOf K).length _ rs hr
+    (fun k hk' => by simp only [Nat.zero_add]; exact hkey k hk') hval
 
 /-! ### a Go map filled with pairwise distinct keys keeps every pair, in order -/
 
@@ -256,12 +299,18 @@ theorem getD_keyChildren (ks : List Bytes) (k : Nat) (h : k < ks.length) :
     (keyChildren ks).getD k default = (0, ks.getD k default) := by
   simp [keyChildren, List.getD, List.getElem?_eq_getElem h]
 
+theorem getD_nat_append_left (a b : List Nat) (i : Nat) (h : i < a.length) : (a ++ b).getD i 0 = a.getD i 0 := by
+  simp [List.getD, List.getElem?_append_left h]
+
+theorem getD_nat_append_right (a b : List Nat) (i : Nat) : (a ++ b).getD (a.length + i) 0 = b.getD i 0 := by
+  simp [List.getD, List.getElem?_append_right (Nat.le_add_right a.length i)]
+
 /-- an encoded object container (written at a 4-aligned position; `P` = position of its first value)
 parses to the pairs of `kvs`, given the induction hypothesis for the values -/
 theorem parse_objBytes (kvs : List (Bytes × Spec.Json)) (P f : Nat)
     (hP : P % 4 = (4 + 8 * kvs.length + (bodyOf (keyChildren (kvs.map (·.1)))).length) % 4)
     (ih : ∀ kv ∈ kvs, DecodesAs kv.2) (hs : coveredKvs kvs = true)
-    (h0 : 0 < kvs.length) (h1 : kvs.length ≤ 10000)
+    (h0 : 0 < kvs.length)
     (hsmall : (objBytes kvs.length (keyChildren (kvs.map (·.1)) ++ valChildren P kvs)).length < 0x10000000)
     (hf : (objBytes kvs.length (keyChildren (kvs.map (·.1)) ++ valChildren P kvs)).length ≤ f) :
     ∃ rs, parseContainer (parseJSONBFuel f) (objBytes kvs.length (keyChildren (kvs.map (·.1)) ++ valChildren P kvs)) =
@@ -306,11 +355,6 @@ theorem parse_objBytes (kvs : List (Bytes × Spec.Json)) (P f : Nat)
         apply List.getElem?_eq_none
         simp only [tysOf, List.length_map]; omega
       simp [List.getD, hn]
-  have hoffs : ∀ j, j < kvs.length * 2 →
-      entryOffLenPure (entriesOf 0 0 (K ++ V)) j 0 = (pre (lensOf (K ++ V)) j, ((lensOf (K ++ V)).getD j 0 : Int)) := by
-    intro j hj
-    rw [entriesOf_eq_encE, entryOffLenPure_encE (lensOf (K ++ V)) (tysOf (K ++ V)) stride hsm hty' j 0 (by omega)]
-    simp
   -- values
   have hex : ∀ k, ∃ r, k < kvs.length →
       decodeJEntry (parseJSONBFuel f) (objBytes kvs.length (K ++ V))
@@ -336,37 +380,53 @@ theorem parse_objBytes (kvs : List (Bytes × Spec.Json)) (P f : Nat)
       exact ⟨r, fun _ => ⟨hr1, hr2⟩⟩
     · exact ⟨default, fun h => absurd h hk⟩
   obtain ⟨g, hg⟩ := Classical.axiomOfChoice hex
+  have hLV : (lensOf V).length = V.length := by simp [lensOf]
   refine ⟨(List.range kvs.length).map (fun k => ((kvs.getD k default).1, g k)), ?_, ?_⟩
   · apply parseContainer_object_abs (parseJSONBFuel f) _ (objHeader kvs.length) kvs.length (entriesOf 0 0 (K ++ V))
-      _ (by omega) ?_ a2 a3 h0 h1 ?_ (monotone_entriesOf 0 0 (K ++ V) (by omega) hty) ?_
+      (endsOf 0 (K ++ V)) _ (by omega) ?_ a2 a3 h0 ?_ (endsFrom_entriesOf 0 0 (K ++ V) (by omega) hty) ?_
     · rw [uN_ok 4 _ 0 (by omega)]
       simp only [List.drop_zero, objBytes]
       rw [rd_le 4 _ _ a1]
-    · have := readEntries_enc (entriesOf 0 0 (K ++ V)) (le 4 (objHeader kvs.length)) (bodyOf (K ++ V)) 0
-        (by simp [le_length]) (entriesOf_lt 0 0 (K ++ V) (by omega) hty)
+    · have := readEntries_enc (entriesOf 0 0 (K ++ V)) (bodyOf (K ++ V)) (entriesOf_lt 0 0 (K ++ V) (by omega) hty)
       rw [entriesOf_length, hcl] at this
+      unfold objBytes
+      rw [List.drop_left' (by simp [le_length])]
       exact this
-    · have hl := parseObjectLoop_results (parseJSONBFuel f) (objBytes kvs.length (K ++ V)) (entriesOf 0 0 (K ++ V))
-        (4 + kvs.length * 2 * 4) kvs.length ((List.range kvs.length).map (fun k => ((kvs.getD k default).1, g k)))
-        (by rw [entriesOf_length, hcl]) (by simp) ?_ ?_ kvs.length 0 (by omega)
-      · rw [List.drop_zero] at hl; exact hl
+    · have hl := parseObject_children (parseJSONBFuel f) (objBytes kvs.length (K ++ V)) (4 + kvs.length * 2 * 4) K V
+        (by omega) (by omega) ((List.range kvs.length).map (fun k => ((kvs.getD k default).1, g k)))
+        (by simp [hKl]) ?_ ?_
+      · rw [hKl] at hl; exact hl
       · -- keys
         intro k hk
-        rw [hoffs k (by omega)]
+        have hk' : k < kvs.length := by omega
+        have e1 : pre (lensOf K) k = pre (lensOf (K ++ V)) k := by
+          rw [lensOf_append, pre_append_left _ _ _ (by omega)]
+        have e2 : (lensOf K).getD k 0 = (lensOf (K ++ V)).getD k 0 := by
+          rw [lensOf_append, getD_nat_append_left _ _ _ (by omega)]
+        rw [e1, e2]
         have hkl : k < (lensOf (K ++ V)).length := by omega
         have hle := pre_succ (lensOf (K ++ V)) k hkl
         have hpt := pre_le_total (lensOf (K ++ V)) (k + 1)
-        simp only [Int.toNat_natCast]
-        refine ⟨by omega, by omega, ?_⟩
+        unfold objKey objKeyN
+        simp only [sliceL_eq, Int.toNat_natCast]
+        rw [if_pos ⟨by omega, by omega⟩, slice_ok _ _ _ (by omega) (by omega)]
         have hsl := slice_child (le 4 (objHeader kvs.length) ++ Spec.encEntries (entriesOf 0 0 (K ++ V))) (K ++ V) k (by omega)
         rw [← hdata, hhd] at hsl
-        rw [hsl, getD_append_left' _ _ _ (by omega), ← hK, getD_keyChildren _ k (by simpa using hk)]
-        simp [List.getD, hk]
+        rw [hsl, getD_append_left' _ _ _ (by omega), ← hK, getD_keyChildren _ k (by simpa using hk')]
+        simp [List.getD, hk']
       · -- values
         intro k hk
-        rw [hoffs (kvs.length + k) (by omega)]
-        rw [(hg k hk).1]
-        simp [List.getD, hk]
+        have hk' : k < kvs.length := by omega
+        have e1 : (bodyOf K).length + pre (lensOf V) k = pre (lensOf (K ++ V)) (kvs.length + k) := by
+          rw [lensOf_append, ← hKl, ← hLK, pre_append_right, hLK, hbK]
+        have e2 : (lensOf V).getD k 0 = (lensOf (K ++ V)).getD (kvs.length + k) 0 := by
+          rw [lensOf_append, ← hKl, ← hLK, getD_nat_append_right]
+        have e3 : (entriesOf K.length (bodyOf K).length V).getD k 0 = (entriesOf 0 0 (K ++ V)).getD (kvs.length + k) 0 := by
+          rw [entriesOf_append, ← hKl]
+          simp only [Nat.zero_add]
+          rw [← entriesOf_length 0 0 K, getD_nat_append_right, entriesOf_length]
+        rw [e1, e2, e3, (hg k hk').1]
+        simp [List.getD, hk']
   · apply toViewKvs_eq _ _ (by simp)
     intro k hk
     simp only [List.getD, List.getElem?_map, List.getElem?_range hk, Option.map_some, Option.getD_some, true_and]
